@@ -4,6 +4,7 @@ import Proofs.SqlBuildCause
 import Proofs.SqlValueForms
 import Proofs.SqlCharRoundtrip
 import Proofs.SqlBuildShape
+import Proofs.SqlRegex
 
 /-!
   C12 — Loading fails only in documented ways and never half-applies input.
@@ -275,6 +276,96 @@ theorem loader_shape_tie :
 theorem regex_tie (r : Gen.SqlLex.Rule) : Gen.SqlLex.Rule.regex r = modelledRegex r := by
   cases r <;> rfl
 
+/-! ### the lexer rules ARE their source regexes (generic regex engine of PyxModel/Regex.lean on the generated parse trees) -/
+
+/-- the parse trees the hand matchers were written for are the ones generated from the source now -/
+theorem rx_tie (r : Gen.SqlLex.Rule) : Gen.SqlLex.Rule.rx r = modelledRx r := by cases r <;> rfl
+
+/-- t_comment `\\-\\-([^\\n]*\\n?)`: two dashes, everything up to the newline, the newline if there is one -/
+theorem sql_scanner_is_regex_comment (u : UC) (cs : Text) :
+    Pyx.Regex.Regex.matchPrefix (Gen.SqlLex.Rule.rx .comment) cs = (matchRule u .comment cs).map (fun p => p.1.length) ∧
+    matchRuleRx .comment cs = matchRule u .comment cs :=
+  ⟨matchPrefix_rule u _ (agrees_comment u) cs, matchRuleRx_eq u _ (agrees_comment u) cs⟩
+
+theorem sql_scanner_is_regex_COMMA (u : UC) (cs : Text) :
+    Pyx.Regex.Regex.matchPrefix (Gen.SqlLex.Rule.rx .COMMA) cs = (matchRule u .COMMA cs).map (fun p => p.1.length) ∧
+    matchRuleRx .COMMA cs = matchRule u .COMMA cs :=
+  ⟨matchPrefix_rule u _ (agrees_COMMA u) cs, matchRuleRx_eq u _ (agrees_COMMA u) cs⟩
+
+/-- t_FRACTION `(\\d+)(\\.\\d+)`: the first run of digits cannot give digits back (what follows must begin with the point) -/
+theorem sql_scanner_is_regex_FRACTION (u : UC) (hu : u.PyTables) (cs : Text) :
+    Pyx.Regex.Regex.matchPrefix (Gen.SqlLex.Rule.rx .FRACTION) cs = (matchRule u .FRACTION cs).map (fun p => p.1.length) ∧
+    matchRuleRx .FRACTION cs = matchRule u .FRACTION cs :=
+  ⟨matchPrefix_rule u _ (agrees_FRACTION u hu) cs, matchRuleRx_eq u _ (agrees_FRACTION u hu) cs⟩
+
+theorem sql_scanner_is_regex_RELID (u : UC) (cs : Text) :
+    Pyx.Regex.Regex.matchPrefix (Gen.SqlLex.Rule.rx .RELID) cs = (matchRule u .RELID cs).map (fun p => p.1.length) ∧
+    matchRuleRx .RELID cs = matchRule u .RELID cs :=
+  ⟨matchPrefix_rule u _ (agrees_RELID u) cs, matchRuleRx_eq u _ (agrees_RELID u) cs⟩
+
+theorem sql_scanner_is_regex_CARDINALITY (u : UC) (cs : Text) :
+    Pyx.Regex.Regex.matchPrefix (Gen.SqlLex.Rule.rx .CARDINALITY) cs = (matchRule u .CARDINALITY cs).map (fun p => p.1.length) ∧
+    matchRuleRx .CARDINALITY cs = matchRule u .CARDINALITY cs :=
+  ⟨matchPrefix_rule u _ (agrees_CARDINALITY u) cs, matchRuleRx_eq u _ (agrees_CARDINALITY u) cs⟩
+
+/-- t_ID `[A-Za-z_][\\w_]*` (Unicode `\\w`) -/
+theorem sql_scanner_is_regex_ID (u : UC) (hu : u.PyTables) (cs : Text) :
+    Pyx.Regex.Regex.matchPrefix (Gen.SqlLex.Rule.rx .ID) cs = (matchRule u .ID cs).map (fun p => p.1.length) ∧
+    matchRuleRx .ID cs = matchRule u .ID cs :=
+  ⟨matchPrefix_rule u _ (agrees_ID u hu) cs, matchRuleRx_eq u _ (agrees_ID u hu) cs⟩
+
+theorem sql_scanner_is_regex_LPAREN (u : UC) (cs : Text) :
+    Pyx.Regex.Regex.matchPrefix (Gen.SqlLex.Rule.rx .LPAREN) cs = (matchRule u .LPAREN cs).map (fun p => p.1.length) ∧
+    matchRuleRx .LPAREN cs = matchRule u .LPAREN cs :=
+  ⟨matchPrefix_rule u _ (agrees_LPAREN u) cs, matchRuleRx_eq u _ (agrees_LPAREN u) cs⟩
+
+theorem sql_scanner_is_regex_MINUS (u : UC) (cs : Text) :
+    Pyx.Regex.Regex.matchPrefix (Gen.SqlLex.Rule.rx .MINUS) cs = (matchRule u .MINUS cs).map (fun p => p.1.length) ∧
+    matchRuleRx .MINUS cs = matchRule u .MINUS cs :=
+  ⟨matchPrefix_rule u _ (agrees_MINUS u) cs, matchRuleRx_eq u _ (agrees_MINUS u) cs⟩
+
+theorem sql_scanner_is_regex_NUMBER (u : UC) (cs : Text) :
+    Pyx.Regex.Regex.matchPrefix (Gen.SqlLex.Rule.rx .NUMBER) cs = (matchRule u .NUMBER cs).map (fun p => p.1.length) ∧
+    matchRuleRx .NUMBER cs = matchRule u .NUMBER cs :=
+  ⟨matchPrefix_rule u _ (agrees_NUMBER u) cs, matchRuleRx_eq u _ (agrees_NUMBER u) cs⟩
+
+theorem sql_scanner_is_regex_RPAREN (u : UC) (cs : Text) :
+    Pyx.Regex.Regex.matchPrefix (Gen.SqlLex.Rule.rx .RPAREN) cs = (matchRule u .RPAREN cs).map (fun p => p.1.length) ∧
+    matchRuleRx .RPAREN cs = matchRule u .RPAREN cs :=
+  ⟨matchPrefix_rule u _ (agrees_RPAREN u) cs, matchRuleRx_eq u _ (agrees_RPAREN u) cs⟩
+
+theorem sql_scanner_is_regex_SEMICOLON (u : UC) (cs : Text) :
+    Pyx.Regex.Regex.matchPrefix (Gen.SqlLex.Rule.rx .SEMICOLON) cs = (matchRule u .SEMICOLON cs).map (fun p => p.1.length) ∧
+    matchRuleRx .SEMICOLON cs = matchRule u .SEMICOLON cs :=
+  ⟨matchPrefix_rule u _ (agrees_SEMICOLON u) cs, matchRuleRx_eq u _ (agrees_SEMICOLON u) cs⟩
+
+/-- t_STRING `\\'((\\'\\')|[^\\'])*\\'`: a greedy repetition of an alternation; when the text ends without a closing quote the engine backs
+    off into the LAST doubled quote, exactly as `scanStr` does -/
+theorem sql_scanner_is_regex_STRING (u : UC) (cs : Text) :
+    Pyx.Regex.Regex.matchPrefix (Gen.SqlLex.Rule.rx .STRING) cs = (matchRule u .STRING cs).map (fun p => p.1.length) ∧
+    matchRuleRx .STRING cs = matchRule u .STRING cs :=
+  ⟨matchPrefix_rule u _ (agrees_STRING u) cs, matchRuleRx_eq u _ (agrees_STRING u) cs⟩
+
+/-- t_GUID `\\"([^\\\\\\n]|(\\\\.))*?\\"`: a lazy repetition, the closing quote is tried before every iteration; backslash pairs; no newline -/
+theorem sql_scanner_is_regex_GUID (u : UC) (cs : Text) :
+    Pyx.Regex.Regex.matchPrefix (Gen.SqlLex.Rule.rx .GUID) cs = (matchRule u .GUID cs).map (fun p => p.1.length) ∧
+    matchRuleRx .GUID cs = matchRule u .GUID cs :=
+  ⟨matchPrefix_rule u _ (agrees_GUID u) cs, matchRuleRx_eq u _ (agrees_GUID u) cs⟩
+
+theorem sql_scanner_is_regex_newline (u : UC) (cs : Text) :
+    Pyx.Regex.Regex.matchPrefix (Gen.SqlLex.Rule.rx .newline) cs = (matchRule u .newline cs).map (fun p => p.1.length) ∧
+    matchRuleRx .newline cs = matchRule u .newline cs :=
+  ⟨matchPrefix_rule u _ (agrees_newline u) cs, matchRuleRx_eq u _ (agrees_newline u) cs⟩
+
+/-- THE SQL LEXER IS ITS SOURCE REGEXES: for every text, the token stream of the model's lexer (hand matchers) is the token
+    stream obtained by running the generic regex engine -- Python's `re` semantics: ordered alternation, greedy and lazy
+    repetition with backtracking -- on the parse trees that Python's own `re._parser` gives for the `t_*` regexes of
+    xtuml/load.py, under PLY's discipline (ignore set, rules in definition order, first match wins, `t_error`).  `u.PyTables`:
+    the model's view of `\\d` / `\\w` outside ASCII is CPython's (the harness sends Python's own per case).  With this the
+    fuel, progress and round-trip theorems about `lex` are theorems about the source regexes; "each rule regex hand-modelled"
+    leaves the trusted base (what stays: the engine itself, validated by A2's self-test, and PLY's discipline). -/
+theorem sql_lexer_is_regex (u : UC) (hu : u.PyTables) (cs : Text) : lexRx u cs = lex u cs := lexRx_eq_lex u hu cs
+
 /-! non-vacuity: concrete instances of the hypotheses -/
 
 /-- an unterminated string is rejected (the text ends inside the literal and contains no doubled quote to back off to) -/
@@ -400,5 +491,19 @@ example : BuildOk UC.ascii [.createTable ['A'] [(['i'], "INTEGER".toList)], .cre
     intro c hc _
     simp only [newTables, List.mem_singleton] at hc; subst hc
     exact ⟨by decide, by simp [CellsOk, deserialize, tyOfName, Gen.Persist.Ty.all, Gen.Persist.Ty.chars, UC.upper, UC.up, UC.ascii, asciiUpper, isAsciiLower, pyInt, isDigitText, isAsciiDigit]⟩
+
+/-- the engine on the generated tree of t_STRING: a quote inside (doubled), then the backing-off case -- the text ends after a
+    doubled quote, the match ends at the first quote of the pair -/
+example : Pyx.Regex.Regex.matchPrefix (Gen.SqlLex.Rule.rx .STRING) "'it''s' x".toList = some 7 ∧
+    Pyx.Regex.Regex.matchPrefix (Gen.SqlLex.Rule.rx .STRING) "'a''".toList = some 3 ∧
+    Pyx.Regex.Regex.matchPrefix (Gen.SqlLex.Rule.rx .STRING) "'a".toList = none := by decide
+
+/-- … of t_GUID (lazy: stops at the first quote that is not part of a backslash pair) and of t_FRACTION -/
+example : Pyx.Regex.Regex.matchPrefix (Gen.SqlLex.Rule.rx .GUID) "\"a\\\"b\" \"".toList = some 6 ∧
+    Pyx.Regex.Regex.matchPrefix (Gen.SqlLex.Rule.rx .FRACTION) "12.50x".toList = some 5 ∧
+    Pyx.Regex.Regex.matchPrefix (Gen.SqlLex.Rule.rx .FRACTION) "12.x".toList = none := by decide
+
+/-- Python's tables are a model parameter that satisfies `PyTables` (the engine's own tables) -/
+example : (⟨Pyx.Regex.isDigit, Pyx.Regex.isWordU, fun c => [c], fun _ => 0⟩ : UC).PyTables := fun _ _ => ⟨rfl, rfl⟩
 
 end PyxProps.C12
